@@ -32,6 +32,7 @@ def run(check: Check):
   # the final (padded) batch of the centralised stream is built by pad_examples (rules of C03)
   from fjsa.props import c03
   c03._pad_examples(check)
+  c03._pick(check)
   _shuffle_batch(check)
   _repeatable(check)
   _centralised(check)
